@@ -1391,3 +1391,40 @@ impl std::ops::Deref for SecurityPluginsHandle {
     &self.inner
   }
 }
+
+// Verification hooks: views of the "not protected" sets and of the local endpoint crypto handles,
+// and direct registration of remote crypto handles (normally the result of the authentication
+// handshake and key exchange), so that an in-crate driver can exercise the MessageReceiver gating
+// with a scripted Cryptographic plugin.
+#[cfg(rustdds_verif)]
+impl SecurityPlugins {
+  pub(crate) fn verif_not_protected(&self) -> (Vec<GuidPrefix>, Vec<GUID>, Vec<GUID>) {
+    (
+      self.rtps_not_protected.iter().copied().collect(),
+      self.submessage_not_protected.iter().copied().collect(),
+      self.payload_not_protected.iter().copied().collect(),
+    )
+  }
+  pub(crate) fn verif_local_endpoint_crypto_handle(&self, guid: &GUID) -> Option<EndpointCryptoHandle> {
+    self.local_endpoint_crypto_handle_cache.get(guid).copied()
+  }
+  pub(crate) fn verif_set_remote_participant_crypto_handle(
+    &mut self,
+    remote_participant_guidp: GuidPrefix,
+    handle: ParticipantCryptoHandle,
+  ) {
+    self
+      .remote_participant_crypto_handle_cache
+      .insert(remote_participant_guidp, handle);
+  }
+  pub(crate) fn verif_set_remote_endpoint_crypto_handle(
+    &mut self,
+    local_endpoint_guid: GUID,
+    remote_endpoint_guid: GUID,
+    handle: EndpointCryptoHandle,
+  ) {
+    self
+      .remote_endpoint_crypto_handle_cache
+      .insert((local_endpoint_guid, remote_endpoint_guid), handle);
+  }
+}
